@@ -30,6 +30,12 @@ ASSUMPTIONS = [
 ]
 
 
+# the core of the alphabet: every length-3 sequence over it is run in the thorough tier (every length <= 2 sequence over
+# the full alphabet is run in both tiers)
+CORE = ("matmat", "rmatmat", "to_dense", "transpose", "adjoint", "add", "scale", "matmul", "annotate", "to_none", "flatten",
+        "roundtrip", "getitem", "diag", "trace", "solve", "eig", "cg", "gmres", "lanczos", "arnoldi", "hutch")
+
+
 def findings(c01):
     out = []
     # ---- registry_first_instance_decides: the witness of coq/C18_Registry.v (history_dependent_refuted), replayed in fresh interpreters
@@ -211,6 +217,9 @@ def run(ctx):
     mism, samples, extra = [], [], {}
     evaluations = 0
 
+    import time
+    tm = {}
+    t0 = time.time()
     # ---------------- pool ----------------
     pool, rejected = P.make_pool(rnd, ctx.budget(28, 60), present_c01=tuple(c01))
     pool += special_entries()
@@ -226,14 +235,16 @@ def run(ctx):
         mism.append(dict(oracle_fail=True, part="flatten", **v))
     extra.update(flatten_checks=nfl)
 
+    tm['pool+flatten'] = round(time.time() - t0, 1)
+    t0 = time.time()
     # ---------------- sequences ----------------
     names = list(S.NAMES)
     seqs = [[a] for a in names] + [list(p) for p in itertools.product(names, repeat=2)]
+    core_names = [x for x in names if x in CORE]
     if ctx.tier == "thorough":
-        seqs += [list(p) for p in itertools.product(names, repeat=3)]
-    else:
-        seqs += [[rnd.choice(names) for _ in range(3)] for _ in range(ctx.budget(3000, 0))]
-    seqs += [[rnd.choice(names) for _ in range(rnd.randint(4, 40))] for _ in range(ctx.budget(150, 400))]
+        seqs += [list(p) for p in itertools.product(core_names, repeat=3)]
+    seqs += [[rnd.choice(names) for _ in range(3)] for _ in range(ctx.budget(1500, 6000))]
+    seqs += [[rnd.choice(names) for _ in range(rnd.randint(4, 40))] for _ in range(ctx.budget(80, 400))]
     err_hist, inapp, alias_obs, calls = collections.Counter(), 0, [], 0
     distinct = set()
     for i, sq in enumerate(seqs):
@@ -250,10 +261,13 @@ def run(ctx):
         if len(mism) > 50:
             break
     evaluations += calls
-    extra.update(sequences=len(seqs), sequence_calls=calls, sequences_exhaustive_up_to=(3 if ctx.tier == "thorough" else 2),
+    extra.update(sequences=len(seqs), sequence_calls=calls, sequences_exhaustive_up_to=("2 over the full alphabet, 3 over the core alphabet" if ctx.tier == "thorough" else "2 over the full alphabet"),
+                 core_alphabet=core_names,
                  alphabet=names, inapplicable_steps=inapp, exceptions_by_op=dict(err_hist.most_common(40)))
     samples.append(dict(part="sequence", sequence=seqs[len(names) + 7], pool_tree=pool[0]["tree"]))
 
+    tm['sequences'] = round(time.time() - t0, 1)
+    t0 = time.time()
     # ---------------- aliasing signatures against the Coq functions ----------------
     failing, uniq, err = G.eval_alias_in_coq(f"s{ctx.seed}", alias_obs)
     if err:
@@ -266,6 +280,8 @@ def run(ctx):
     extra.update(alias_observations=len(alias_obs), alias_distinct=len(uniq),
                  alias_true=sum(1 for _, _, o in uniq if o))
 
+    tm['alias'] = round(time.time() - t0, 1)
+    t0 = time.time()
     # ---------------- registry: fresh interpreters, Coq machine replays the events ----------------
     arrays_ok = True     # a constructor that raises is modelled too (XPartial): its assignments reach the registry
     specs = [G.gen_spec(rnd, arrays_ok) for _ in range(ctx.budget(40, 200))]
@@ -291,6 +307,8 @@ def run(ctx):
     extra.update(registry_scripts=len(specs), registry_order_permutations=min(len(perms), ctx.budget(60, 1200)), registry_objects=n_obj,
                  registry_script_construction_errors=dict(script_errs))
     samples.append(dict(part="registry", script=specs[0]))
+    tm['registry'] = round(time.time() - t0, 1)
+    extra['timing_s'] = tm
     logging.disable(logging.NOTSET)
     return dict(
         evaluations=evaluations, distinct_nontrivial=len(distinct),
